@@ -415,6 +415,18 @@ func kindClass(kind string) string {
 	return kind
 }
 
+// WaitDone parks the running task until the named task has finished (or nothing else can run).
+func (s *Sim) WaitDone(name string) {
+	t := s.cur
+	if t == nil || s.TaskDone(name) {
+		return
+	}
+	t.HoldAt = t.OpCount
+	t.HoldUntil = name
+	s.Op("mark.wait", name)
+	t.HoldAt = -1
+}
+
 // TaskDone reports whether the named task has finished (or died).
 func (s *Sim) TaskDone(name string) bool {
 	for _, t := range s.tasks {
